@@ -11,8 +11,8 @@
    The context after rendering is returned: SetNode and ForNode write the variable map of the context they
    run in, and that map is shared by everything rendered later in the same context. Derived contexts
    (include, macro call, import, extends) are built from the current one, used, and dropped.
-   Errors carry their class only. An error aborts the whole rendering except at the sites that swallow it
-   (is defined on an attribute, spaceless); output produced before an error is never observable.
+   Errors carry their class only. An error aborts the whole rendering (no site swallows one any more; a missing
+   template under ignore missing is not an error); output produced before an error is never observable.
    No proofs here. *)
 From Twig Require Import Base.Bytes Base.Utf8 Model.Ast Model.Value Model.ValueOps Model.Escape
                          Model.EvalBuiltins Model.Ctx Model.TemplateSet Gen.Registry.
@@ -113,6 +113,14 @@ Definition ev_call_function (env : ev_env) (c : rctx) (name : bytes) (args : lis
         | None => (Err EOther, [])
         end
     end.
+
+(* the fallback of a module.name(...) call, which is what _self.name(...) takes: a macro of that name first, as
+   in a plain name(...) call, then ctx.CallFunction *)
+Definition ev_self_call (env : ev_env) (c : rctx) (name : bytes) (args : list value) : ev_res :=
+  match rc_get_macro c name with
+  | Some (tpl, nm) => (Ok (VCallable tpl nm args), [])
+  | None => ev_call_function env c name args
+  end.
 
 (* a test of the environment *)
 Definition ev_call_test (env : ev_env) (name : bytes) (v : value) (args : list value) : ev_res :=
@@ -294,9 +302,14 @@ Definition ev_defined_attr (ev : expr -> ev_res) (o : expr) (a : bytes) : ev_res
             | Unmodelled => Unmodelled
             end, t)
     end
-  | (Err _, t) => (Ok (VBool false), t)        (* the error of the object expression is swallowed *)
+  | (Err e, t) => (Err e, t)                   (* a failure of the object expression is reported (aee56e1) *)
   | (o', t) => (ev_cast o' Unmodelled, t)
   end.
+
+(* the macro a bare name denotes: ctx.GetMacro, unless this context itself has a variable of that name (a macro
+   parameter or a variable set in the body hides a macro of the same name, 8789b1e) *)
+Definition ev_var_macro (c : rctx) (x : bytes) : option (bytes * bytes) :=
+  match rc_own_var c x with Some _ => None | None => rc_get_macro c x end.
 
 (* the sandbox check at the top of EvaluateExpression: function and filter nodes by name *)
 Definition ev_sandbox_denies (env : ev_env) (c : rctx) (e : expr) : bool :=
@@ -318,7 +331,8 @@ Definition ev_expr (ev : expr -> ev_res) (env : ev_env) (c : rctx) (e : expr) : 
   match e with
   | ELit l => ev_lift (ev_lit l)
   | EVar x =>
-    match rc_get_macro c x with
+    (* a macro of that name first, unless this context itself has a variable of that name *)
+    match ev_var_macro c x with
     | Some (tpl, nm) => ev_ret (VMacro tpl nm)
     | None => if rc_hack_name x then ev_lift Unmodelled else ev_ret (rc_get_var c x)
     end
@@ -354,9 +368,9 @@ Definition ev_expr (ev : expr -> ev_res) (env : ev_env) (c : rctx) (e : expr) : 
     | VMap MAny kvs =>
       match vo_map_find kvs (VStr f) with
       | Some (VMacro tpl nm) => ev_ret (VCallable tpl nm vs)
-      | _ => ev_call_function env c f vs
+      | _ => ev_self_call env c f vs
       end
-    | _ => ev_call_function env c f vs
+    | _ => ev_self_call env c f vs
     end))
   | ETest a t args neg =>
     let r :=
@@ -496,7 +510,9 @@ Definition ev_call_macro (ev : rctx -> expr -> ev_res) (rend : rctx -> list node
   | Some (params, body) =>
     if existsb vo_has_callable args || negb (ev_macro_body_plain body) then (Unmodelled, [])
     else
-      let mc0 := rc_derive (rc_fresh [] tpl) (Some c) (rc_sandboxed c) (rc_last_loaded c) in
+      (* the macros of the defining template are visible in the body whatever the caller sees *)
+      let mc0 := rc_with_macros (rc_derive (rc_fresh [] tpl) (Some c) (rc_sandboxed c) (rc_last_loaded c))
+                                (ts_sibling_macros env tpl) in
       ev_bind (ev_bind_params (ev c) params args mc0) (fun mc =>
         let '(r, _, t) := rend mc body in (r, t))
   end.
@@ -663,7 +679,8 @@ Definition ev_include (ev : rctx -> expr -> ev_res) (root : rctx -> list node ->
           ev_rexpr (ev_with_vars (ev c) kvs (mk (rc_clone c))) c (fun ic =>
             let '(r, _, t) := root ic inodes in (r, c, t))
         else
-          let base := rc_fresh (if only then [] else rc_vars c) name in
+          (* only: nothing; sandboxed without only: every variable the includer can read *)
+          let base := rc_fresh (if only then [] else rc_visible_vars c) name in
           let ic0 := mk (rc_derive base None (rc_sandboxed c || sandboxed) None) in
           if sandboxed && (match e_policy env with None => true | Some _ => false end) then ev_rfail (Err EOther) c
           else
@@ -731,13 +748,13 @@ Definition ev_apply (ev : rctx -> expr -> ev_res) (rend : rctx -> list node -> e
   | other => other
   end.
 
-(* SpacelessNode.Render: an error of the filter is swallowed and the body written unfiltered *)
+(* SpacelessNode.Render: an error of the filter is the error of the tag (36660ef) *)
 Definition ev_spaceless (rend : rctx -> list node -> ev_rres) (env : ev_env) (c : rctx) (body : list node) : ev_rres :=
   match rend c body with
   | (Ok content, c1, t1) =>
     match ev_apply_filter env c1 b#"spaceless" (VStr content) [] with
     | (Ok w, t2) => (match vo_to_str w with Some s => Ok s | None => Unmodelled end, c1, t1 ++ t2)
-    | (Err _, t2) => (Ok content, c1, t1 ++ t2)
+    | (Err e, t2) => (Err e, c1, t1 ++ t2)
     | (o, t2) => (ev_cast o Unmodelled, c1, t1 ++ t2)
     end
   | other => other
